@@ -105,6 +105,11 @@ def scan(source: str, callback: callable):
                 # No consumed selector, emit empty value as selector start
                 state.start = state.end = scanner.pos
 
+            if state.property_start == -1 and state.property_delimiter != -1 and state.property_delimiter == state.start - 1:
+                # Colon right before consumed token and nothing before it:
+                # a pseudo-selector like `:root {` or nested `:hover {`
+                state.start = state.property_delimiter
+
             if state.property_start != -1:
                 # Now we know that value that looks like property name-value pair
                 # was actually a selector
@@ -132,7 +137,9 @@ def scan(source: str, callback: callable):
             state.start = state.end = -1
         else:
             if state.start == -1:
-                state.start = scanner.pos
+                # NB: `scanner.start`, not `scanner.pos`: colon(s) of pseudo-element
+                # (`::selection {`) could be consumed by condition above
+                state.start = scanner.start
 
             if scanner.eat(Chars.LeftRound):
                 state.expression += 1
